@@ -60,7 +60,15 @@ def install_hash_stubs(E):
 
 # ------------------------------------------------------------------ secp256k1 (uninterpreted)
 XPARSE = z3.Function('xonly_parse_ok', z3.BitVecSort(256), z3.BoolSort())
-TWEAKCHK = z3.Function('tweak_add_check', z3.BitVecSort(256), z3.BitVecSort(1), z3.BitVecSort(256), z3.BitVecSort(256), z3.BoolSort())
+# tweaking an x-only key: (internal key, tweak) -> parity bit ++ x coordinate of the result, and whether the operation is defined; the BIP341 check
+# 'tweak_add_check(q, parity, p, t)' is expressed through the same functions, so code that computes the tweaked key and compares (instead of calling
+# the check) is modelled consistently
+TWEAKADD = z3.Function('xonly_tweak_add_pt', z3.BitVecSort(256), z3.BitVecSort(256), z3.BitVecSort(257))
+TWEAKADD_OK = z3.Function('xonly_tweak_add_ok', z3.BitVecSort(256), z3.BitVecSort(256), z3.BoolSort())
+def TWEAKCHK(q, par, p, t):
+    B_ = lambda x, n: x if z3.is_bv(x) else z3.BitVecVal(int(x), n)
+    q, par, p, t = B_(q, 256), B_(par, 1), B_(p, 256), B_(t, 256)
+    return z3.And(TWEAKADD_OK(p, t), TWEAKADD(p, t) == z3.Concat(par, q))
 SCHNORR = z3.Function('schnorr_verify', z3.BitVecSort(512), z3.BitVecSort(256), z3.BitVecSort(256), z3.BoolSort())
 
 def install_secp_stubs(E):
@@ -79,7 +87,26 @@ def install_secp_stubs(E):
         ctx, sig, msg, msglen, pk = A
         if is_sym(msglen) or msglen != 32: raise Unsupported('schnorr msglen')
         return b2i(SCHNORR(cat(rd(E, st, sig, 64), 8), cat(rd(E, st, msg, 32), 8), cat(rd(E, st, pk, 32), 8)))
+    def tweak_add(E, st, fr, I, A):
+        ctx, out, xonly, tweak = A
+        kb = cat(rd(E, st, xonly, 32), 8); tb = cat(rd(E, st, tweak, 32), 8)
+        r = TWEAKADD(kb, tb)
+        xs = [simp(z3.Extract(255 - 8 * i, 248 - 8 * i, r)) for i in range(32)]
+        wr(E, st, out, xs + [simp(z3.ZeroExt(7, z3.Extract(256, 256, r)))] + [0] * 31)          # opaque point: x bytes, then the parity
+        return b2i(TWEAKADD_OK(kb, tb))
+    def from_pubkey(E, st, fr, I, A):
+        ctx, out_xonly, parity_p, pk = A
+        bs = rd(E, st, pk, 33)
+        wr(E, st, out_xonly, bs[:32] + [0] * 32)
+        if parity_p: E.store(st, parity_p, 4, simp(z3.ZeroExt(24, bv(bs[32], 8))) if is_sym(bs[32]) else bs[32])
+        return 1
+    def xonly_serialize(E, st, fr, I, A):
+        ctx, out32, xonly = A
+        wr(E, st, out32, rd(E, st, xonly, 32)); return 1
     S['secp256k1_xonly_pubkey_parse'] = xparse
+    S['secp256k1_xonly_pubkey_tweak_add'] = tweak_add
+    S['secp256k1_xonly_pubkey_from_pubkey'] = from_pubkey
+    S['secp256k1_xonly_pubkey_serialize'] = xonly_serialize
     S['secp256k1_xonly_pubkey_tweak_add_check'] = tweakchk
     S['secp256k1_schnorrsig_verify'] = schnorr_verify
 
@@ -144,6 +171,7 @@ def install_oracle(E):
         for x in (kind, alen, blen, clen, sv):
             if is_sym(x): raise Unsupported('symbolic oracle shape')
         args = (kind, tuple(rd(E, st, a, alen)) if alen else (), tuple(rd(E, st, b, blen)) if blen else (), tuple(rd(E, st, c, clen)) if clen else (), sv)
+        if alen == 0: return 0          # an empty signature never verifies (CheckECDSASignature / CheckSchnorrSignature reject it before any curve work)
         calls = list(st.aux.get('oracle', []))
         def same(x, y): return (not is_sym(x) and not is_sym(y) and x == y) or (is_sym(x) and is_sym(y) and x.eq(y))
         for (args2, var) in calls:
@@ -163,6 +191,7 @@ def install_oracle(E):
 _ORC = {}
 def orc_app(kind, a, b, c, sv):
     """Bool term ORACLE_kind(a, b, c, sv) for byte lists a, b, c (lengths are part of the function's identity)"""
+    if len(a) == 0: return z3.BoolVal(False)     # an empty signature never verifies
     key = (kind, len(a), len(b), len(c), sv)
     n = 8 * (len(a) + len(b) + len(c))
     F = _ORC.get(key)
